@@ -435,6 +435,11 @@ func c05boundary() []c05case {
 		add(fmt.Sprintf("nest-ternary-%d", d), "x := 1\nreturn "+strings.Repeat("x ? 1 : ", d)+"2")
 		add(fmt.Sprintf("nest-calls-%d", d), "f := func(a) { return a }\nreturn "+strings.Repeat("f(", d)+"1"+strings.Repeat(")", d))
 	}
+	for n := 1; n <= 6; n++ {
+		add(fmt.Sprintf("forin-idents-%d", n), "for "+c05repeat(n, func(i int) string { return fmt.Sprintf("k%d", i) }, ", ")+" in [1, 2] {\n}\nreturn 1")
+		add(fmt.Sprintf("assign-lhs-%d", n), "var (a, b, c)\n"+c05repeat(n, func(i int) string { return []string{"a", "b", "c", "a.x", "b[0]", "c"}[i] }, ", ")+" = [1, 2, 3]\nreturn a")
+		add(fmt.Sprintf("return-list-%d", n), "return "+c05repeat(n, func(i int) string { return fmt.Sprint(i) }, ", "))
+	}
 	for n := 1; n <= 12; n++ {
 		add(fmt.Sprintf("parse-errors-%d", n), c05repeat(n, func(i int) string { return "x := := 1" }, "\n"))
 		add(fmt.Sprintf("compile-errors-%d", n), c05repeat(n, func(i int) string { return fmt.Sprintf("y%d := undefinedName%d", i, i) }, "\n"))
